@@ -11,7 +11,22 @@ ASSUMPTIONS = [
     'IEEE doubles compared bit for bit in the replay',
     'the scheduler processes on the real kernel refine the MultiQueueServer LTS: checked by replay, not proved',
 ]
-TRUSTED_EXTRA = ['the kernel guarantees (G1-G3) that make `tick` admissible only at quiescence are theorems of model K (C01), assumed for the device LTS']
+TRUSTED_EXTRA = ['the kernel guarantees (G1-G3) that make `tick` admissible only at quiescence are theorems of model K (C01), assumed for the device LTS',
+                 'py2lean/elem.py + elements.py (typed AST-subset translator; hand-written per-class field schema of DRR objects; the fragments of '
+                 'DRR.__init__ / run / put are located by structural landmarks); the bridge theorem C15.drr_generated_eq_model ties its output to the model']
+BRIDGES = ['C15.drr_generated_eq_model']
+HAND_MODELLED = ['DRR.run (the nested loops, head-of-line parking, the generator control flow; its arithmetic fragments are translated)',
+                 'RR.run', 'WRR.run', 'MultiQueueScheduler (stores, packets_available)', 'Scheduler.send_packet / add_packet_to_queue']
+_PREP = {}
+
+
+def prepare(ctx):
+    """regenerate lean/OnlVerif/Generated/Drr.lean from the source under $ONL_REPO (a translator failure or a bridge
+    theorem that no longer compiles is a broken obligation)"""
+    from py2lean import translate, elements
+    _PREP['translated'] = elements.TRANSLATED['Drr']
+    _PREP['rewritten'] = translate.regenerate_all(only=('Drr',))
+    _PREP['diff_vs_pinned'] = translate.diff_vs_pinned('Drr')
 
 
 def gen(rng, n):
@@ -21,9 +36,13 @@ def gen(rng, n):
 def run(ctx):
     rng = random.Random(f'C15-{ctx.seed}')
     cases = cases_from_replay(ctx.replay) if ctx.replay else gen(rng, 1500 if ctx.quick else 30000)
-    return evaluate(
+    res = evaluate(
         cases, [oracle_c15, oracle_c12],
         nontrivial=lambda c, r, st, co: st.get('multi_class_decisions', 0) > 0,
         rule='seeded random class tables (2-6 flows, weights 1-4; DRR also many-to-one flow2class maps, packet sizes on both sides of the '
              'quantum) x workloads (1-3 sources, same-instant bursts, front-loaded backlogs, classes emptying and refilling, idle gaps); '
              'non-trivial = distinct case with at least one decision taken while two or more classes were backlogged')
+    res['coverage'].update({'translated': _PREP.get('translated', []), 'generated_files_rewritten': _PREP.get('rewritten', []),
+                            'generated_diff_vs_pinned': _PREP.get('diff_vs_pinned', []), 'bridge_theorems': BRIDGES,
+                            'hand_modelled': HAND_MODELLED})
+    return res
